@@ -95,6 +95,42 @@ Proof. intros H. injection H. auto. Qed.
 Lemma neg_lincomb_eq si m r d : eqn (- si * m + - si * r * d) (- (si * m + si * r * d)).
 Proof. apply eqn_refl'. ring. Qed.
 
+Lemma pow256_32 : 256 ^ Z.of_nat 32 = 2 ^ 256.
+Proof. vm_compute. reflexivity. Qed.
+
+(* parsing a well-formed 33-byte encoding reduces to decompression *)
+Lemma parse_pubkey_cons pre xs x odd :
+  length xs = 32%nat -> ((pre =? 2) || (pre =? 3) = true /\ (pre =? 3) = odd) -> be_val xs = x -> in_field x = true ->
+  parse_pubkey (pre :: xs) = match lift_x odd x with Some P => inl P | None => inr PkOffCurve end.
+Proof.
+  intros L [Hp Ho] Hv Hf. unfold parse_pubkey. rewrite L, Hp, Hv, Hf, Ho. reflexivity.
+Qed.
+
+(* recovery id bits *)
+Lemma recid_bits (hi od : bool) :
+  let v0 := (if hi then 2 else 0) + (if od then 1 else 0) in
+  let v1 := if Z.odd v0 then v0 - 1 else v0 + 1 in
+  Z.odd (v0 / 2) = hi /\ Z.odd v0 = od /\ Z.odd (v1 / 2) = hi /\ Z.odd v1 = negb od.
+Proof. destruct hi, od; cbv; auto. Qed.
+
+(* r = rx mod n and the high bit of the recovery id give rx back (p < 2n) *)
+Lemma rx_of_r N P rx : 0 < N -> P < 2 * N -> 0 <= rx < P ->
+  (if N <=? rx then rx mod N + N else rx mod N) = rx.
+Proof.
+  intros HN HP Hr. destruct (N <=? rx) eqn:E.
+  - apply Z.leb_le in E. rewrite <- (Z.mod_unique rx N 1 (rx - N)); lia.
+  - apply Z.leb_gt in E. rewrite Z.mod_small; lia.
+Qed.
+
+Lemma p_lt_2n : p < 2 * n.
+Proof. reflexivity. Qed.
+
+Lemma recover_scalar_eq ri s0 nonce m : eqn (ri * s0 * nonce + - (ri * m)) (ri * s0 * nonce + - (ri * m)).
+Proof. reflexivity. Qed.
+
+Lemma neg_neg_prod a b : eqn (- a * - b) (a * b).
+Proof. apply eqn_refl'. ring. Qed.
+
 (* what a successful Signature.Sign computed *)
 Lemma sign_inv k m nonce r s v :
   sign k m nonce = Some (r, s, v) ->
@@ -354,25 +390,39 @@ Section GroupLaw.
     0 <= d -> 0 < s < n ->
     ecdsa_verify (smul d G) m r s = true -> ecdsa_verify (smul d G) m r (n - s) = true.
   Proof.
-    intros Hd Hs H. unfold ecdsa_verify in *.
-    destruct (modinv s n) as [si|] eqn:Hsi; [|discriminate H].
-    apply modinv_n_sound in Hsi as [Esi Rsi].
+    intros Hd Hs.
+    (* arithmetic first: lia / nia must not see the unfolded verification *)
+    assert (Hsn : s mod n <> 0) by (rewrite Z.mod_small; lia).
     assert (Hns : (n - s) mod n <> 0) by (rewrite Z.mod_small; lia).
-    destruct (modinv_n (n - s) Hns) as (si' & Hsi' & Esi' & Rsi'). rewrite Hsi'.
+    destruct (modinv_n s Hsn) as (si & Hsi & Esi & Rsi).
+    destruct (modinv_n (n - s) Hns) as (si' & Hsi' & Esi' & Rsi').
     pose proof (inverse_neg s si si' Esi Esi') as Eneg.
     assert (OQ : on_curve (smul d G) = true) by (apply sclosed, G_on_curve).
-    rewrite (lincomb_correct prime_p) in * by (exact G_on_curve || exact OQ).
     pose proof (mod_n_nonneg (si * m)) as R1. pose proof (mod_n_nonneg (si * r)) as R2.
     pose proof (mod_n_nonneg (si' * m)) as R1'. pose proof (mod_n_nonneg (si' * r)) as R2'.
-    rewrite <- !smul_mul in * by (lia || exact G_on_curve).
-    rewrite <- smul_add in H by (try exact G_on_curve; nia).
-    rewrite <- smul_add by (try exact G_on_curve; nia).
-    assert (E : eqn ((si' * m) mod n + (si' * r) mod n * d) (- ((si * m) mod n + (si * r) mod n * d))).
-    { rewrite !eqn_mod, Eneg. apply neg_lincomb_eq. }
-    rewrite <- (smulG_mod ((si' * m) mod n + (si' * r) mod n * d)) by nia.
-    unfold eqn in E. rewrite E. rewrite smulG_neg by nia.
-    destruct (smul ((si * m) mod n + (si * r) mod n * d) G) as [|x y]; [discriminate H|].
-    cbn [pneg]. exact H.
+    set (u1 := (si * m) mod n) in *. set (u2 := (si * r) mod n) in *.
+    set (u1' := (si' * m) mod n) in *. set (u2' := (si' * r) mod n) in *.
+    assert (N1 : 0 <= u1 + u2 * d) by nia. assert (N2 : 0 <= u1' + u2' * d) by nia.
+    assert (N3 : 0 <= u2 * d) by nia. assert (N4 : 0 <= u2' * d) by nia.
+    assert (E : eqn (u1' + u2' * d) (- (u1 + u2 * d))).
+    { unfold u1, u2, u1', u2'. rewrite !eqn_mod, Eneg. apply neg_lincomb_eq. }
+    assert (L1 : lincomb u1 G u2 (smul d G) = smul (u1 + u2 * d) G).
+    { rewrite (lincomb_correct prime_p) by (exact G_on_curve || exact OQ).
+      rewrite <- smul_mul by (lia || exact G_on_curve).
+      rewrite <- smul_add by (lia || exact G_on_curve). reflexivity. }
+    assert (L2 : lincomb u1' G u2' (smul d G) = pneg (smul (u1 + u2 * d) G)).
+    { rewrite (lincomb_correct prime_p) by (exact G_on_curve || exact OQ).
+      rewrite <- smul_mul by (lia || exact G_on_curve).
+      rewrite <- smul_add by (lia || exact G_on_curve).
+      rewrite <- (smulG_mod (u1' + u2' * d)) by exact N2.
+      unfold eqn in E. rewrite E. apply smulG_neg. exact N1. }
+    clear - Hsi Hsi' L1 L2.
+    unfold ecdsa_verify. rewrite Hsi, Hsi'.
+    change ((si * m) mod n) with u1. change ((si * r) mod n) with u2.
+    change ((si' * m) mod n) with u1'. change ((si' * r) mod n) with u2'.
+    rewrite L1, L2.
+    destruct (smul (u1 + u2 * d) G) as [|x y]; [intros H; exact H|].
+    cbn [pneg]. intros H. exact H.
   Qed.
 
   (* both parties of ECDH derive the same point *)
@@ -412,11 +462,15 @@ Section GroupLaw.
   Proof.
     destruct P as [|x y]; [discriminate|]. intros O. cbn [compress]. intros E. injection E as <-.
     pose proof (lift_x_complete x y O) as HL. apply on_curve_inv in O as (Fx & Fy & _).
-    unfold parse_pubkey. rewrite be_bytes_length. cbn [Nat.eqb negb].
     assert (Hx : 0 <= x < 256 ^ Z.of_nat 32).
-    { unfold in_field in Fx. pose proof p_lt_256. change (256 ^ Z.of_nat 32) with (2 ^ 256). lia. }
-    rewrite be_val_be_bytes by exact Hx. rewrite Fx. cbn [negb].
-    destruct (Z.odd y) eqn:Eo; cbn [Z.eqb orb negb Pos.eqb]; rewrite HL; reflexivity.
+    { unfold in_field in Fx. pose proof p_lt_256 as Hp. rewrite <- pow256_32 in Hp.
+      revert Fx Hp. generalize (256 ^ Z.of_nat 32). generalize p. clear. intros P256 B Fx Hp. lia. }
+    rewrite (parse_pubkey_cons (if Z.odd y then 3 else 2) (be_bytes 32 x) x (Z.odd y)).
+    - rewrite HL. reflexivity.
+    - apply be_bytes_length.
+    - destruct (Z.odd y); split; reflexivity.
+    - apply be_val_be_bytes. exact Hx.
+    - exact Fx.
   Qed.
 
   (* byte level: cipher.ECDH(pubB, secA) = cipher.ECDH(pubA, secB) *)
@@ -431,5 +485,87 @@ Section GroupLaw.
     assert (Ob : on_curve (smulx b G) = true) by (rewrite smulxG; apply sclosed, G_on_curve).
     rewrite (compress_parse _ _ Oa Ea), (compress_parse _ _ Ob Eb).
     rewrite ecdh_sym_points by lia. reflexivity.
+  Qed.
+  (* ---- recovery returns the signer's key *)
+  Lemma double_nonzero a : 0 < a < n -> padd (smul a G) (smul a G) <> Inf.
+  Proof.
+    intros Ha H. rewrite <- smul_add in H by (lia || exact G_on_curve).
+    apply smulG_Inf in H; [|lia]. unfold eqn in H. rewrite Zmod_0_l in H.
+    apply Zmod_divide in H; [|intro; discriminate]. destruct H as [q Hq].
+    pose proof n_half as Hn. clear - Ha Hq Hn. assert (q = 1) by nia. subst q. lia.
+  Qed.
+
+  Theorem recover_sign k m nonce r s v :
+    0 < k < n -> 0 <= m -> 0 < nonce < n ->
+    sign k m nonce = Some (r, s, v) -> r <> 0 ->
+    recover m r s v = inl (smul k G).
+  Proof.
+    intros Hk Hm Hnonce Hs Hr0.
+    pose proof (sign_ranges _ _ _ _ _ _ Hs) as (Rr & Rs & Rv).
+    apply sign_inv in Hs as (rx & ry & ki & ER & Hrx & Hki & Hr & H).
+    cbv zeta in H. destruct H as (Hs0 & Hcase).
+    rewrite smulxG in ER.
+    apply modinv_n_sound in Hki as [Eki Rki].
+    pose proof n_half as Hn.
+    assert (OR : on_curve (Aff rx ry) = true) by (rewrite <- ER; apply sclosed, G_on_curve).
+    pose proof OR as OR'. apply on_curve_inv in OR' as (Frx & Fry & _).
+    (* the y coordinate of nonce*G is not 0 (no point of order 2) *)
+    assert (Hry : ry <> 0).
+    { intros E0. apply (double_nonzero nonce Hnonce). rewrite ER, E0.
+      cbn [padd]. rewrite Z.eqb_refl. reflexivity. }
+    assert (Hry' : 0 < ry < p) by (unfold in_field in Fry; lia).
+    (* scalars *)
+    set (s0 := (ki * ((r * k + m) mod n)) mod n) in *.
+    assert (Es0 : eqn s0 (ki * (r * k + m))).
+    { unfold s0. rewrite eqn_mod. apply mul_eqn; [reflexivity|apply eqn_mod]. }
+    assert (Hrn : r mod n <> 0) by (rewrite Z.mod_small; lia).
+    destruct (modinv_n r Hrn) as (ri & Hri & Eri & Rri).
+    pose proof (mod_n_nonneg (ri * s)) as R2. pose proof (mod_n_nonneg (n - (ri * m) mod n)) as R1.
+    set (u1 := (n - (ri * m) mod n) mod n) in *. set (u2 := (ri * s) mod n) in *.
+    assert (Eu1 : eqn u1 (- (ri * m))).
+    { unfold u1. rewrite eqn_mod. rewrite eqn_mod. rewrite eqn_n. reflexivity. }
+    pose proof (scalar_recover ki nonce r k m s0 ri Eki Es0 Eri) as Ecore.
+    (* the abscissa *)
+    assert (Hx : (if n <=? rx then r + n else r) = rx).
+    { rewrite Hr. apply (rx_of_r n p); [reflexivity|exact p_lt_2n|unfold in_field in Frx; lia]. }
+    assert (Hpx : (p <=? rx) = false) by (unfold in_field in Frx; lia).
+    (* the range tests of recover *)
+    assert (T1 : (r =? 0) = false) by lia. assert (T2 : (r <? 0) = false) by lia.
+    assert (T3 : (n <=? r) = false) by lia. assert (T4 : ((s <=? 0) || (n <=? s)) = false) by lia.
+    pose proof (recid_bits (n <=? rx) (Z.odd ry)) as Hbits. cbv zeta in Hbits.
+    destruct Hbits as (B1 & B2 & B3 & B4).
+    assert (ONeg : on_curve (Aff rx (fneg ry)) = true) by (apply (nclosed (Aff rx ry)); exact OR).
+    (* both cases: the decompressed point R' and a scalar c with R' = c*G and u2*c + u1 = k (mod n) *)
+    assert (Main : exists R' c, lift_x (Z.odd v) rx = Some R' /\ Z.odd (v / 2) = (n <=? rx) /\
+                   R' = smul c G /\ 0 <= c /\ eqn (u2 * c + u1) k).
+    { destruct Hcase as [(Hh & Es & Ev)|(Hh & Es & Ev)].
+      - exists (Aff rx (fneg ry)), ((- nonce) mod n).
+        rewrite Ev, B3, B4. rewrite <- (fneg_parity ry Hry').
+        split; [apply lift_x_complete; exact ONeg|]. split; [reflexivity|].
+        split; [rewrite smulG_neg by lia; rewrite ER; reflexivity|].
+        split; [apply mod_n_nonneg|].
+        unfold u2. rewrite Eu1, !eqn_mod, Es.
+        assert (E1 : eqn (n - s0) (- s0)) by (rewrite eqn_n; reflexivity).
+        rewrite E1. rewrite <- Ecore.
+        apply add_eqn; [|reflexivity].
+        transitivity (- (ri * s0) * - nonce); [apply mul_eqn; [|reflexivity]; apply eqn_refl'; lia|].
+        rewrite neg_neg_prod. reflexivity.
+      - exists (Aff rx ry), nonce.
+        rewrite Ev, B1, B2.
+        split; [apply lift_x_complete; exact OR|]. split; [reflexivity|].
+        split; [symmetry; exact ER|]. split; [lia|].
+        unfold u2. rewrite Eu1, !eqn_mod, Es. exact Ecore. }
+    destruct Main as (R' & c & HL & Hhi & HR' & Hc & Ec).
+    assert (OR'' : on_curve R' = true) by (rewrite HR'; apply sclosed, G_on_curve).
+    assert (L : lincomb u2 R' u1 G = smul k G).
+    { rewrite (lincomb_correct prime_p) by (exact G_on_curve || exact OR'').
+      rewrite HR'. rewrite <- smul_mul by (lia || exact G_on_curve).
+      rewrite <- smul_add by (try exact G_on_curve; nia).
+      apply smulG_eqn; [nia|lia|exact Ec]. }
+    pose proof (smulG_nonzero k Hk) as NZ.
+    clear - T1 T2 T3 T4 Hhi Hx Hpx HL Hri L NZ.
+    unfold recover. rewrite T1, T2, T3, T4, Hhi, Hx, Hpx, andb_false_r, HL, Hri.
+    change ((n - (ri * m) mod n) mod n) with u1. change ((ri * s) mod n) with u2. rewrite L.
+    destruct (smul k G) as [|qx qy]; [exfalso; apply NZ; reflexivity|reflexivity].
   Qed.
 End GroupLaw.
